@@ -228,6 +228,62 @@ def _eval_states(chunk):
     return count, keys, fails, sample
 
 
+def _stair_perm(reaches):
+    """Exact permanent of the 0/1 staircase whose row i has ones in columns 1..reaches[i]."""
+    out = Fraction(1)
+    for k, r in enumerate(sorted(reaches)):
+        if r - k <= 0:
+            return Fraction(0)
+        out *= r - k
+    return out
+
+
+def block_boundary_cases(chk, sizes=(11, 12)):
+    """The largest blocks the exact routine has to take (inf_retis hands blocks of up to 12 paths to permanent_prob, larger ones to the
+    Monte Carlo estimate): W = diag(r) S diag(c) with S a staircase that forms one block.  P is invariant under row and column scalings
+    (numerator and permanent pick up the same factor), and both the permanent and every minor of a staircase are staircases, so the
+    exact P is a product formula - no enumeration of 12! permutations needed.  The result must equal it to 1e-9 and the state's random
+    generator must not be touched."""
+    import copy
+    from harness.repex_util import new_state
+    for m in sizes:
+        n = m + 1
+        reaches = [min(m, i + 1) for i in range(1, m + 1)]          # 2, 3, ..., m, m: one block, no row forced
+        den = _stair_perm(reaches)
+        rsc = [1.0 + (i % 3) * 0.5 for i in range(m)]
+        csc = [1.0 + ((2 * j) % 5) * 0.25 for j in range(m)]
+        W = [[0.0] * n for _ in range(n)]
+        W[0][0] = 1.0
+        exp = [[Fraction(0)] * n for _ in range(n)]
+        exp[0][0] = Fraction(1)
+        for a in range(m):
+            for b in range(m):
+                if b + 1 <= reaches[a]:
+                    W[a + 1][b + 1] = rsc[a] * csc[b]
+                    minor = [reaches[k] - (1 if b + 1 <= reaches[k] else 0) for k in range(m) if k != a]
+                    exp[a + 1][b + 1] = _stair_perm(minor) / den
+        st = new_state(n, workers=1)
+        st.rgen = np.random.default_rng(chk.seed + 5)
+        before = copy.deepcopy(st.rgen.bit_generator.state)
+        case = {"entry": "inf_retis", "block": m, "reaches": reaches}
+        try:
+            out = st.inf_retis(abs(with_ghost(W)), locks_vec(n, []))
+        except Exception as exc:  # noqa: BLE001
+            chk.violation(f"entry:inf_retis:block{m}", f"inf_retis raised {type(exc).__name__} on a single block of {m} paths: {exc}",
+                          {"property": PID, "binding": "B", "spec": "Perm", "kind": "block-boundary", "case": case, "clause": "P is exact for blocks of up to 12 paths"})
+            continue
+        err = max(abs(float(out[i][j]) - float(exp[i][j])) for i in range(n) for j in range(n))
+        if err > 1e-9:
+            chk.violation(f"entry:inf_retis:block{m}", f"a block of {m} idle paths with wire-fencing weights: P differs from the exact permanent ratios by {err:.3e}",
+                          {"property": PID, "binding": "B", "spec": "Perm", "kind": "block-boundary", "case": case, "clause": "P is exact for blocks of up to 12 paths"})
+        if st.rgen.bit_generator.state != before:
+            chk.violation(f"entry:inf_retis:block{m}:draws", f"computing P for a block of {m} paths consumed random numbers (the Monte Carlo estimate was used)",
+                          {"property": PID, "binding": "B", "spec": "Perm", "kind": "block-boundary", "case": case, "clause": "P is exact for blocks of up to 12 paths"})
+        chk.evaluated(1)
+        chk.nontrivial(("block", m))
+    print(f"  block boundary: single blocks of {list(sizes)} paths with scaled staircase weights against the product formula", flush=True)
+
+
 def exact_full(s, i, j):
     return s["num"][i][j]
 
@@ -381,6 +437,7 @@ def main(tier, replay=None):
                   f"{len(ids)} states and {ne} edges replayed on the real code ({res['wall_s']} s TLC)", flush=True)
     finally:
         common.rmtree(work)
+    block_boundary_cases(chk)
     # system-level binding: the P the sampler actually draws from and credits, in recorded executions
     # (catches a stale cached P, which no direct call of inf_retis can show)
     q = tier == "quick"
@@ -403,6 +460,14 @@ def replay_file(path):
     global _RAW, _N
     with open(path) as fh:
         rp = json.load(fh)
+    if rp.get("kind") == "block-boundary":
+        chk = common.Check(PID, "quick", "model_checking")
+        block_boundary_cases(chk, sizes=(rp["case"]["block"],))
+        if chk.violations:
+            print(f"VIOLATION property={PID} replay={path}\n  {[v[0] for v in chk.violations]}")
+            return 1
+        print("replay: P of the block is exact")
+        return 0
     consts = rp["constants"]
     _N = consts["N"]
     st = new_state(_N)
